@@ -30,6 +30,18 @@ package saml2
 //@   return exists u int :: 0 <= u && u < len(ar.Audiences) && ar.Audiences[u].Value == uri
 //@ }
 
+// The warnings mirror the conditions exactly (C05 window, C06 audience / one-time-use / proxy).
+//@ pure func WarningsMirror(sp *SAMLServiceProvider, c *types.Conditions, w *WarningInfo) bool {
+//@   return w != nil
+//@     && (w.InvalidTime <==> now(sp.Clock) < instantOf(c.NotBefore) || now(sp.Clock) >= instantOf(c.NotOnOrAfter))
+//@     && (w.NotInAudience <==> exists r int :: 0 <= r && r < len(c.AudienceRestrictions) && !RestrictionMatches(c.AudienceRestrictions[r], sp.AudienceURI))
+//@     && (w.OneTimeUse <==> c.OneTimeUse != nil)
+//@     && (w.ProxyRestriction == nil <==> c.ProxyRestriction == nil)
+//@     && (c.ProxyRestriction != nil ==> w.ProxyRestriction.Count == c.ProxyRestriction.Count
+//@           && len(w.ProxyRestriction.Audience) == len(c.ProxyRestriction.Audience)
+//@           && forall m int :: 0 <= m && m < len(c.ProxyRestriction.Audience) ==> w.ProxyRestriction.Audience[m] == c.ProxyRestriction.Audience[m].Value)
+//@ }
+
 //@ func (sp *SAMLServiceProvider) VerifyAssertionConditions(assertion *types.Assertion) (w *WarningInfo, err error)
 //@   requires sp != nil && assertion != nil
 //@   safety [C09]
@@ -460,9 +472,160 @@ package saml2
 //@   exit [C04] mirror: err == nil ==> assertionInfo.ResponseSignatureValidated == response.SignatureValidated
 //@   exit [C01, C08] assertions: err == nil ==> assertionInfo.Assertions == response.Assertions
 //@   exit [C03] profile: err == nil ==> ProfileOK(sp, response)
-//@   exit [C06] warnings: err == nil ==> assertionInfo.WarningInfo == warningInfo
+//@   exit [C05, C06] warnings: err == nil ==> CondWellFormed(response.Assertions[0].Conditions)
+//@        && WarningsMirror(sp, response.Assertions[0].Conditions, assertionInfo.WarningInfo)
 //@   exit [C08] nameid: err == nil ==> assertionInfo.NameID == response.Assertions[0].Subject.NameID.Value
 //@   exit [C08] session: err == nil && response.Assertions[0].AuthnStatement != nil ==>
 //@        assertionInfo.SessionIndex == response.Assertions[0].AuthnStatement.SessionIndex
 //@        && assertionInfo.AuthnInstant == response.Assertions[0].AuthnStatement.AuthnInstant
 //@        && assertionInfo.SessionNotOnOrAfter == response.Assertions[0].AuthnStatement.SessionNotOnOrAfter
+
+// ---------------------------------------------------------------------------
+// saml.go: key selection (C11 C13 C19), signing context (C13 C17), metadata (C19)
+// ---------------------------------------------------------------------------
+
+// The specification side is written once, from the property statements:
+// signing key = explicit signing key if any (setter, then field), else the encryption key (setter, then field).
+//@ pure func HasSignKey(sp *SAMLServiceProvider) bool {
+//@   return sp.spSigningKeyStoreOverride != nil || sp.SPSigningKeyStore != nil || sp.spKeyStoreOverride != nil || sp.SPKeyStore != nil
+//@ }
+//@ pure func EncCertOf(sp *SAMLServiceProvider) []byte {
+//@   return sp.spKeyStoreOverride != nil ? sp.spKeyStoreOverride.Cert : (sp.SPKeyStore != nil ? kpCert(sp.SPKeyStore) : nil)
+//@ }
+//@ pure func EncCertErr(sp *SAMLServiceProvider) error {
+//@   return sp.spKeyStoreOverride != nil ? nil : (sp.SPKeyStore != nil ? kpErr(sp.SPKeyStore) : nil)
+//@ }
+//@ pure func SignCertOf(sp *SAMLServiceProvider) []byte {
+//@   return sp.spSigningKeyStoreOverride != nil ? sp.spSigningKeyStoreOverride.Cert
+//@        : (sp.SPSigningKeyStore != nil ? kpCert(sp.SPSigningKeyStore) : EncCertOf(sp))
+//@ }
+//@ pure func SignCertErr(sp *SAMLServiceProvider) error {
+//@   return sp.spSigningKeyStoreOverride != nil ? nil
+//@        : (sp.SPSigningKeyStore != nil ? kpErr(sp.SPSigningKeyStore) : EncCertErr(sp))
+//@ }
+// certificate a signing context embeds / verifies with
+//@ pure func CtxCert(ctx *dsig.SigningContext) []byte {
+//@   return ctx.KeyStore != nil ? kpCert(ctx.KeyStore) : ctx.certs[0]
+//@ }
+
+//@ func (sp *SAMLServiceProvider) GetEncryptionKey() (result dsig.X509KeyStore)
+//@   requires sp != nil
+//@   frame [C17]
+//@   assigns nothing
+//@   ensures [C19] field: result == sp.SPKeyStore
+
+//@ func (sp *SAMLServiceProvider) GetSigningKey() (result dsig.X509KeyStore)
+//@   requires sp != nil
+//@   frame [C17]
+//@   assigns nothing
+//@   ensures [C19, C13] field: result == (sp.SPSigningKeyStore != nil ? sp.SPSigningKeyStore : sp.SPKeyStore)
+
+//@ func (sp *SAMLServiceProvider) getEncryptionCert() (cert []byte, err error)
+//@   requires sp != nil
+//@   frame [C17]
+//@   assigns nothing
+//@   ensures [C19, C11] cert: err == EncCertErr(sp) && (err == nil ==> cert == EncCertOf(sp))
+
+//@ func (sp *SAMLServiceProvider) GetEncryptionCertBytes() (cert []byte, err error)
+//@   requires sp != nil
+//@   frame [C17]
+//@   assigns nothing
+//@   ensures [C19, C11] cert: err == nil ==> cert == EncCertOf(sp) && len(cert) >= 1
+//@   ensures [C19] fails: err == nil <==> (EncCertErr(sp) == nil && len(EncCertOf(sp)) >= 1)
+
+//@ func (sp *SAMLServiceProvider) getSigningCert() (cert []byte, err error)
+//@   requires sp != nil
+//@   frame [C17]
+//@   assigns nothing
+//@   ensures [C19, C13] cert: err == SignCertErr(sp) && (err == nil ==> cert == SignCertOf(sp))
+
+//@ func (sp *SAMLServiceProvider) GetSigningCertBytes() (cert []byte, err error)
+//@   requires sp != nil
+//@   frame [C17]
+//@   assigns nothing
+//@   ensures [C19, C13] cert: err == nil ==> cert == SignCertOf(sp) && len(cert) >= 1
+//@   ensures [C19, C13] fails: err == nil <==> (SignCertErr(sp) == nil && len(SignCertOf(sp)) >= 1)
+
+// SigningContext: lazily built once under the write lock; the key it signs with and the certificate it embeds
+// are those of the effective signing key (so what it embeds is what GetSigningCertBytes and the metadata report).
+//@ func (sp *SAMLServiceProvider) SigningContext() (ctx *dsig.SigningContext)
+//@   requires SPValid(sp) && sp.signingContextMu.$mu == 0 && HasSignKey(sp)
+//@   frame [C17]
+//@   assigns sp.signingContext, sp.signingContextMu.$mu
+//@   ensures [C17] unlocked: sp.signingContextMu.$mu == 0
+//@   ensures [C13, C17] cached: old(sp.signingContext) != nil ==> ctx == old(sp.signingContext) && sp.signingContext == old(sp.signingContext)
+//@   ensures [C13] stored: ctx != nil && sp.signingContext == ctx
+//@   ensures [C13, C19] cert: old(sp.signingContext) == nil ==> CtxCert(ctx) == SignCertOf(sp)
+//@   ensures [C13] signer.setter: old(sp.signingContext) == nil && sp.spSigningKeyStoreOverride != nil ==>
+//@        ctx.KeyStore == nil && ctx.signer == sp.spSigningKeyStoreOverride.Signer && len(ctx.certs) == 1
+//@   ensures [C13] signer.field: old(sp.signingContext) == nil && sp.spSigningKeyStoreOverride == nil && sp.SPSigningKeyStore != nil ==>
+//@        ctx.KeyStore == sp.SPSigningKeyStore && ctx.signer == nil
+//@   ensures [C13] signer.encsetter: old(sp.signingContext) == nil && sp.spSigningKeyStoreOverride == nil && sp.SPSigningKeyStore == nil
+//@        && sp.spKeyStoreOverride != nil ==> ctx.KeyStore == nil && ctx.signer == sp.spKeyStoreOverride.Signer && len(ctx.certs) == 1
+//@   ensures [C13] signer.encfield: old(sp.signingContext) == nil && sp.spSigningKeyStoreOverride == nil && sp.SPSigningKeyStore == nil
+//@        && sp.spKeyStoreOverride == nil ==> ctx.KeyStore == sp.SPKeyStore && ctx.signer == nil
+//@   ensures [C13] method: old(sp.signingContext) == nil ==>
+//@        ctx.Hash == ((methodKnown(sp.SignAuthnRequestsAlgorithm) && methodFits(sp.SignAuthnRequestsAlgorithm, ctx)) ? methodHash(sp.SignAuthnRequestsAlgorithm) : 5)
+//@   ensures [C13] c14n: old(sp.signingContext) == nil ==>
+//@        ctx.Canonicalizer == (sp.SignAuthnRequestsCanonicalizer != nil ? sp.SignAuthnRequestsCanonicalizer : defaultC14N())
+
+// Guarded-by discipline for the lazily built signing context (C17).
+//@ guarded [C17] SAMLServiceProvider.signingContext by signingContextMu
+
+//@ pure func KDCert(kd types.KeyDescriptor) string {
+//@   return kd.KeyInfo.X509Data.X509Certificates[0].Data
+//@ }
+//@ pure func AdvertisedMethodsOK(kd types.KeyDescriptor) bool {
+//@   return len(kd.EncryptionMethods) == 5
+//@     && kd.EncryptionMethods[0].Algorithm == types.MethodAES128GCM && kd.EncryptionMethods[1].Algorithm == types.MethodAES192GCM
+//@     && kd.EncryptionMethods[2].Algorithm == types.MethodAES256GCM && kd.EncryptionMethods[3].Algorithm == types.MethodAES128CBC
+//@     && kd.EncryptionMethods[4].Algorithm == types.MethodAES256CBC
+//@     && forall k int :: 0 <= k && k < len(kd.EncryptionMethods) ==>
+//@          IsGCM(kd.EncryptionMethods[k].Algorithm) || IsCBC(kd.EncryptionMethods[k].Algorithm)
+//@ }
+//@ pure func DescriptorBasics(sp *SAMLServiceProvider, md *types.EntityDescriptor) bool {
+//@   return md.EntityID == sp.ServiceProviderIssuer && md.SPSSODescriptor != nil
+//@     && md.SPSSODescriptor.AuthnRequestsSigned == sp.SignAuthnRequests
+//@     && md.SPSSODescriptor.WantAssertionsSigned == !sp.SkipSignatureValidation
+//@     && md.SPSSODescriptor.ProtocolSupportEnumeration == SAMLProtocolNamespace
+//@     && len(md.SPSSODescriptor.AssertionConsumerServices) == 1
+//@     && md.SPSSODescriptor.AssertionConsumerServices[0].Binding == BindingHttpPost
+//@     && md.SPSSODescriptor.AssertionConsumerServices[0].Location == sp.AssertionConsumerServiceURL
+//@     && md.SPSSODescriptor.AssertionConsumerServices[0].Index == 1
+//@ }
+
+//@ func (sp *SAMLServiceProvider) Metadata() (md *types.EntityDescriptor, err error)
+//@   requires SPValid(sp)
+//@   frame [C17]
+//@   assigns nothing
+//@   fresh [C17] md when err == nil
+//@   ensures [C19] xor: (md != nil) != (err != nil)
+//@   ensures [C19] basics: err == nil ==> DescriptorBasics(sp, md)
+//@   ensures [C19] validity: err == nil ==> instant(md.ValidUntil) == now(sp.Clock) + 604800000000000 && isUTC(md.ValidUntil)
+//@   ensures [C19, C13] signing: err == nil && HasSignKey(sp) ==> len(md.SPSSODescriptor.KeyDescriptors) == 2
+//@        && md.SPSSODescriptor.KeyDescriptors[0].Use == "signing"
+//@        && KDCert(md.SPSSODescriptor.KeyDescriptors[0]) == b64enc(SignCertOf(sp))
+//@   ensures [C19, C11] encryption: err == nil ==> len(md.SPSSODescriptor.KeyDescriptors) >= 1
+//@        && md.SPSSODescriptor.KeyDescriptors[len(md.SPSSODescriptor.KeyDescriptors)-1].Use == "encryption"
+//@        && KDCert(md.SPSSODescriptor.KeyDescriptors[len(md.SPSSODescriptor.KeyDescriptors)-1]) == b64enc(EncCertOf(sp))
+//@        && AdvertisedMethodsOK(md.SPSSODescriptor.KeyDescriptors[len(md.SPSSODescriptor.KeyDescriptors)-1])
+//@   ensures [C19] nokeys: err == nil ==> HasSignKey(sp)
+
+//@ func (sp *SAMLServiceProvider) MetadataWithSLO(validityHours int64) (md *types.EntityDescriptor, err error)
+//@   requires SPValid(sp) && validityHours <= 2562047
+//@   frame [C17]
+//@   assigns nothing
+//@   fresh [C17] md when err == nil
+//@   ensures [C19] xor: (md != nil) != (err != nil)
+//@   ensures [C19] basics: err == nil ==> DescriptorBasics(sp, md)
+//@   ensures [C19] validity: err == nil ==> isUTC(md.ValidUntil)
+//@        && instant(md.ValidUntil) == now(sp.Clock) + (validityHours <= 0 ? 168 : validityHours) * 3600000000000
+//@   ensures [C19, C13] signing: err == nil ==> len(md.SPSSODescriptor.KeyDescriptors) == 2
+//@        && md.SPSSODescriptor.KeyDescriptors[0].Use == "signing"
+//@        && KDCert(md.SPSSODescriptor.KeyDescriptors[0]) == b64enc(SignCertOf(sp))
+//@   ensures [C19, C11] encryption: err == nil ==> md.SPSSODescriptor.KeyDescriptors[1].Use == "encryption"
+//@        && KDCert(md.SPSSODescriptor.KeyDescriptors[1]) == b64enc(EncCertOf(sp))
+//@        && AdvertisedMethodsOK(md.SPSSODescriptor.KeyDescriptors[1])
+//@   ensures [C19] slo: err == nil ==> len(md.SPSSODescriptor.SingleLogoutServices) == 1
+//@        && md.SPSSODescriptor.SingleLogoutServices[0].Binding == BindingHttpPost
+//@        && md.SPSSODescriptor.SingleLogoutServices[0].Location == sp.ServiceProviderSLOURL
